@@ -95,3 +95,22 @@ func checkNoDroppedErrors(c *Check, rule string, exempt map[string]string, rels 
 }
 
 var _ = types.Universe
+
+// errorReturningCalls: all call instructions in fn whose last result is an error.
+func errorReturningCalls(fn *ssa.Function) []ssa.CallInstruction {
+	var out []ssa.CallInstruction
+	for _, b := range fn.Blocks {
+		for _, ins := range b.Instrs {
+			ci, ok := ins.(ssa.CallInstruction)
+			if !ok {
+				continue
+			}
+			sig := ci.Common().Signature()
+			n := sig.Results().Len()
+			if n > 0 && isErrorType(sig.Results().At(n-1).Type()) {
+				out = append(out, ci)
+			}
+		}
+	}
+	return out
+}
